@@ -18,6 +18,7 @@ import (
 type c20Case struct {
 	Kind string          `json:"kind"`
 	XY   [4][2]float32   `json:"primaries_and_white_xy,omitempty"`
+	YY   *[4]float32     `json:"primaries_and_white_luminance,omitempty"`
 	M    *matrix.Matrix3 `json:"matrix_columns,omitempty"`
 	O    *matrix.Matrix3 `json:"other_columns,omitempty"`
 	V    *matrix.Vector3 `json:"vector,omitempty"`
@@ -55,11 +56,18 @@ func c20xyy(p [2]float32) ciexyy.Color { return ciexyy.Color{X: p[0], Y: p[1], Y
 func c20ref(p [2]float32) refcolor.XY  { return refcolor.XY{X: float64(p[0]), Y: float64(p[1])} }
 
 func c20Triangle(xy [4][2]float32) (kind, msg string, worst float64) {
+	return c20TriangleYY(xy, [4]float32{1, 1, 1, 1})
+}
+
+// c20TriangleYY: the primaries may be handed over with any luminance (only their chromaticity
+// matters); the white's luminance scales the whole map.
+func c20TriangleYY(xy [4][2]float32, yy [4]float32) (kind, msg string, worst float64) {
 	type res struct{ to, from matrix.Matrix3 }
+	col := func(i int) ciexyy.Color { return ciexyy.Color{X: xy[i][0], Y: xy[i][1], YY: yy[i]} }
 	rs, pan := c12Call(func() res {
 		return res{
-			ciexyz.TransformToXYZForXYYPrimaries(c20xyy(xy[0]), c20xyy(xy[1]), c20xyy(xy[2]), c20xyy(xy[3])),
-			ciexyz.TransformFromXYZForXYYPrimaries(c20xyy(xy[0]), c20xyy(xy[1]), c20xyy(xy[2]), c20xyy(xy[3])),
+			ciexyz.TransformToXYZForXYYPrimaries(col(0), col(1), col(2), col(3)),
+			ciexyz.TransformFromXYZForXYYPrimaries(col(0), col(1), col(2), col(3)),
 		}
 	})
 	if pan != nil {
@@ -67,7 +75,7 @@ func c20Triangle(xy [4][2]float32) (kind, msg string, worst float64) {
 	}
 	to, from := libMat(rs.to), libMat(rs.from)
 	// (1,1,1) -> white
-	w := c20ref(xy[3]).XYZ()
+	w := refcolor.XYYToXYZ(float64(xy[3][0]), float64(xy[3][1]), float64(yy[3]))
 	got := to.MulV(refcolor.Vec{1, 1, 1})
 	for i := 0; i < 3; i++ {
 		d := math.Abs(got[i]-w[i]) / math.Max(1, math.Abs(w[i]))
@@ -75,7 +83,7 @@ func c20Triangle(xy [4][2]float32) (kind, msg string, worst float64) {
 			worst = d
 		}
 		if !(d <= 1e-6) {
-			return "white", fmt.Sprintf("generated RGB->XYZ for %v maps (1,1,1) to %v, white is %v", xy, got, w), worst
+			return "white", fmt.Sprintf("generated RGB->XYZ for %v (luminances %v) maps (1,1,1) to %v, white is %v", xy, yy, got, w), worst
 		}
 	}
 	// unit primaries keep their chromaticity
@@ -99,6 +107,13 @@ func c20Triangle(xy [4][2]float32) (kind, msg string, worst float64) {
 	}
 	// against the independent derivation
 	ref, ok := refcolor.RGBToXYZ(c20ref(xy[0]), c20ref(xy[1]), c20ref(xy[2]), c20ref(xy[3]))
+	if ok && yy[3] != 1 {
+		for i := 0; i < 3; i++ {
+			for j := 0; j < 3; j++ {
+				ref[i][j] *= float64(yy[3])
+			}
+		}
+	}
 	if ok {
 		pr, pg, pb := c20ref(xy[0]).XYZ(), c20ref(xy[1]).XYZ(), c20ref(xy[2]).XYZ()
 		pc := refcolor.Mat{{pr[0], pg[0], pb[0]}, {pr[1], pg[1], pb[1]}, {pr[2], pg[2], pb[2]}}.Cond()
@@ -219,7 +234,23 @@ func c20Singular(rg *core.RNG) matrix.Matrix3 {
 	for b == a {
 		b = rg.Intn(3)
 	}
-	switch rg.Intn(5) {
+	switch rg.Intn(8) {
+	case 5: // diagonal with a zero on the diagonal
+		m = matrix.Matrix3{{rg.Uniform(-4, 4), 0, 0}, {0, rg.Uniform(-4, 4), 0}, {0, 0, rg.Uniform(-4, 4)}}
+		m[a][a] = 0
+		if rg.Bool() {
+			m[b][b] = 0
+		}
+	case 6: // identity / scaled identity with one column zeroed, or the zero matrix
+		m = matrix.Matrix3{{1, 0, 0}, {0, 1, 0}, {0, 0, 1}}
+		m[a] = matrix.Vector3{}
+		if rg.Intn(4) == 0 {
+			m = matrix.Matrix3{}
+		}
+	case 7: // zero row
+		for c := 0; c < 3; c++ {
+			m[c][a] = 0
+		}
 	case 0: // zero column
 		m[a] = matrix.Vector3{}
 	case 1: // identical columns
@@ -260,6 +291,31 @@ func runC20(r *core.Run) {
 			r.Violate("triangle", kind, s.Name+": "+msg, c20Case{Kind: kind, XY: s.XY})
 		}
 	}
+	// the same spaces with the primaries listed in every order (clockwise and counter-clockwise)
+	// and with primaries carrying their own luminance
+	rgp := core.NewRNG(r.Seed, "C20", "pubvar")
+	for _, sp := range c20Published {
+		for _, perm := range [][3]int{{0, 2, 1}, {1, 0, 2}, {1, 2, 0}, {2, 0, 1}, {2, 1, 0}} {
+			xy := [4][2]float32{sp.XY[perm[0]], sp.XY[perm[1]], sp.XY[perm[2]], sp.XY[3]}
+			kind, msg, _ := c20Triangle(xy)
+			r.AddEvals(1)
+			r.NT(fmt.Sprintf("pubperm/%s/%v", sp.Name, perm))
+			if kind != "" {
+				r.Violate("triangle", kind+"/permuted", sp.Name+fmt.Sprintf(" with primaries in order %v: ", perm)+msg, c20Case{Kind: kind, XY: xy})
+			}
+		}
+		yy := [4]float32{float32(rgp.Uniform(0.05, 1)), float32(rgp.Uniform(0.05, 1)), float32(rgp.Uniform(0.05, 1)), 1}
+		if rgp.Intn(3) == 0 {
+			yy[3] = float32(rgp.Uniform(0.5, 1.5))
+		}
+		kind, msg, _ := c20TriangleYY(sp.XY, yy)
+		r.AddEvals(1)
+		r.NT("pubyy/" + sp.Name)
+		if kind != "" {
+			y := yy
+			r.Violate("triangle", kind+"/luminance", sp.Name+": "+msg, c20Case{Kind: kind, XY: sp.XY, YY: &y})
+		}
+	}
 	r.Obs("published_spaces", len(c20Published))
 	r.Obs("max_white_or_chromaticity_error_published", worstPub)
 	shards := 16
@@ -274,10 +330,15 @@ func runC20(r *core.Run) {
 				continue
 			}
 			n++
-			kind, msg, w := c20Triangle(xy)
+			yy := [4]float32{1, 1, 1, 1}
+			if n%3 == 0 {
+				yy = [4]float32{float32(rg.Uniform(0.02, 2)), float32(rg.Uniform(0.02, 2)), float32(rg.Uniform(0.02, 2)), 1}
+			}
+			kind, msg, w := c20TriangleYY(xy, yy)
 			worst[sh] = math.Max(worst[sh], w)
 			if kind != "" {
-				r.Violate("triangle", kind, msg, c20Case{Kind: kind, XY: xy})
+				y := yy
+				r.Violate("triangle", kind, msg, c20Case{Kind: kind, XY: xy, YY: &y})
 			}
 		}
 		r.AddEvals(n)
@@ -343,7 +404,11 @@ func replayC20(stage string, raw json.RawMessage) (bool, string, error) {
 	}
 	switch stage {
 	case "triangle":
-		k, m, _ := c20Triangle(cs.XY)
+		yy := [4]float32{1, 1, 1, 1}
+		if cs.YY != nil {
+			yy = *cs.YY
+		}
+		k, m, _ := c20TriangleYY(cs.XY, yy)
 		return k != "", m, nil
 	case "singular":
 		if cs.M == nil {
